@@ -12,9 +12,12 @@ import (
 	"log/slog"
 	"net/netip"
 	"os"
+	"os/signal"
 	"path/filepath"
 	"sort"
 	"strings"
+	"sync"
+	"syscall"
 	"testing"
 	"time"
 
@@ -637,6 +640,9 @@ type world struct {
 	// diskGone is set while the cache directory is moved away.
 	diskGone bool
 
+	// diskFull is set while the size of files is limited.
+	diskFull bool
+
 	lastStored *version // version written by the last store that completed
 	storing    *version // version a store in progress is writing
 	images     int
@@ -991,6 +997,12 @@ func run(s *kernel.Sim, _, cfg string) {
 	_ = os.Mkdir(cacheDir, 0o700)
 
 	w := &world{s: s, dir: cacheDir}
+	// Whatever happens to the run, the process gets its file sizes back.
+	defer func() {
+		if w.diskFull {
+			setFileSizeLimit(0)
+		}
+	}()
 	w.be = &backend{w: w, ops: []int{0}}
 	for op := 1; op < 10; op++ {
 		if t.Chance(1, 2, "swarm-op") {
@@ -1025,7 +1037,7 @@ func run(s *kernel.Sim, _, cfg string) {
 	crash := cfg != "nocrash" && cfg != "toggle" && !w.overlap
 	s.DeferBackground = true
 	s.Invariant = func() {
-		if !crash || w.storing == nil || w.diskGone {
+		if !crash || w.storing == nil || w.diskGone || w.diskFull {
 			return
 		}
 		for _, site := range s.ParkedSites() {
@@ -1054,6 +1066,15 @@ func run(s *kernel.Sim, _, cfg string) {
 
 			before, _ := os.ReadFile(cachePath)
 
+			// The other disk fault: the file system takes only so many
+			// octets per file while this synchronisation runs (a full disk,
+			// a quota), so that the write of the cache file fails part-way.
+			if !w.overlap && !w.diskGone && t.Chance(1, 8, "disk-full") {
+				w.diskFull = true
+				setFileSizeLimit(uint64(kernel.Pick(t, []int{1, 16, 64, 200}, "disk-full-after")))
+				s.Fault("disk-full-during-store")
+			}
+
 			// The disk fault: the cache directory is not there while this
 			// synchronisation runs, so that a full one cannot write its
 			// file.  What it has fetched must be applied all the same.
@@ -1074,6 +1095,10 @@ func run(s *kernel.Sim, _, cfg string) {
 					panic(rnerr)
 				}
 				w.diskGone = false
+			}
+			if w.diskFull {
+				setFileSizeLimit(0)
+				w.diskFull = false
 			}
 			if w.overlap {
 				w.commitPending(end)
@@ -1303,6 +1328,30 @@ func scratchRoot() string {
 	}
 
 	return os.TempDir()
+}
+
+var (
+	fsizeOnce sync.Once
+	fsizeOld  syscall.Rlimit
+)
+
+// setFileSizeLimit limits the size of every file this process writes to n
+// octets (RLIMIT_FSIZE; a write beyond it fails with EFBIG once SIGXFSZ is
+// ignored); zero lifts the limit again.
+func setFileSizeLimit(n uint64) {
+	fsizeOnce.Do(func() {
+		signal.Ignore(syscall.SIGXFSZ)
+		if err := syscall.Getrlimit(syscall.RLIMIT_FSIZE, &fsizeOld); err != nil {
+			panic(err)
+		}
+	})
+	lim := fsizeOld
+	if n > 0 {
+		lim.Cur = n
+	}
+	if err := syscall.Setrlimit(syscall.RLIMIT_FSIZE, &lim); err != nil {
+		panic(err)
+	}
 }
 
 func TestWorker(t *testing.T) {
